@@ -62,7 +62,7 @@ func restartDirScen(c *Ctx) {
 			ks = files[dupOf].key[:len(files[dupOf].key)-65]
 		}
 		sz := sizes[r.Weighted(5, 2, 2, 2, 3, 3, 2, 1, 1)]
-		b = world.Make(world.BlobID{Kind: r.Intn(3), Seed: 7000 + i, Size: sz})
+		b = world.Make(world.BlobID{Kind: r.Intn(4), Seed: 7000 + i, Size: sz})
 		hash := b.Hash
 		if ks != "cas" {
 			hash = world.HashOf([]byte(fmt.Sprintf("key-%d", i)))
